@@ -121,6 +121,8 @@ def make_spec(profile_name, seed, tier):
     prof.setdefault('tie_policies', ties)
     if tier == 'thorough':
         prof.setdefault('horizons', [10.0, 20.0, 30.0, 50.0, 100.0, 200.0])
+        prof.setdefault('n_nodes', [1, 1, 2, 2, 3, 3, 4, 5, 6])
+        prof.setdefault('n_classes', [1, 1, 2, 2, 3, 4])
     spec = gen.gen_spec(seed, prof)
     spec['profile'] = profile_name
     return spec
